@@ -110,6 +110,26 @@ fn c06_grid() -> Vec<History> {
             }
         }
     }
+    // real (not fabricated) large texts through try_push_str / push_str / try_insert_str / insert_str
+    for state in 0..N_STATES {
+        let (prefix, _) = state_prefix(state);
+        for n in [65_536usize, 524_288, 1_048_576, 1_048_577 + 64, 2_000_000] {
+            for entry in 0..4u8 {
+                let mut ops = prefix.clone();
+                let text = Text::Repeat { n, unit: 'g' };
+                ops.push(match entry {
+                    0 => Op::PushStr { slot: 0, text, try_: true },
+                    1 => Op::PushStr { slot: 0, text, try_: false },
+                    2 => Op::InsertStr { slot: 0, idx: Idx::Raw(0), text, try_: true },
+                    _ => Op::InsertStr { slot: 0, idx: Idx::LenPlus(0), text, try_: false },
+                });
+                ops.push(Op::Push { slot: 0, ch: 'é', try_: false });
+                ops.push(Op::Compare { a: 0, b: 1 });
+                ops.push(Op::ShrinkToFit { slot: 0, try_: true });
+                out.push(History { ops, plan: Plan::default() });
+            }
+        }
+    }
     out
 }
 
@@ -385,7 +405,8 @@ pub fn c11(tier: Tier, seed: u64) -> Verdict {
 fn growth_case() -> impl Fn(&History, &mut CurrentFile) -> (CaseStats, Option<Violation>) + Sync {
     move |h, cur| {
         cur.record(&history_value(h));
-        let res = crate::history::run_history_for(h, "C12");
+        // growth by up to 1 MiB must reach the allocator: raise the shim's refusal limit for this check
+        let res = crate::history::run_history_with(h, 16 << 20, Some("C12"));
         let mut stats = CaseStats::default();
         let v = account("C12", h, &res, false, &mut stats);
         if v.is_none() && res.failures.is_empty() {
@@ -467,8 +488,8 @@ pub fn c12(tier: Tier, seed: u64) -> Verdict {
     let mut merged = Merged::new();
     let n = tier.pick(10_000, 300_000);
     for (i, p) in [
-        Profile { max_text: 1500, ..Profile::capacity() },
-        Profile { max_text: 4096, w_append: 30, w_clone: 14, w_static: 8, ..Profile::base() },
+        Profile { max_text: 1500, huge_texts: true, ..Profile::capacity() },
+        Profile { max_text: 4096, w_append: 30, w_clone: 14, w_static: 8, huge_texts: true, ..Profile::base() },
     ]
     .into_iter()
     .enumerate()
